@@ -177,6 +177,53 @@ Example c14_pool_legacy_refuted :
     [ (Ok (mkRes None 5 (mkCv 3 false)), Ok (mkRes None 5 (mkCv 2 false))); (Err (EProto 6), Err (EProto 6)) ].
 Proof. vm_compute. repeat split; reflexivity. Qed.
 
+(* ---- sessions: the labels attached to a connection never change after its handshake completed.
+   A session is any number of consecutive handshakes served by the same service objects (same credential checker, same
+   pooled handshake objects), for whatever accounts, accepted or rejected; every connection's labels (identity, proto
+   version, client version) are read again [no]/[ni] times later.  The model's session meets the session predicate
+   that the correspondence check evaluates on the labels re-read from the real connection contexts. *)
+Theorem c14_session_labels_stable_partial : forall l po pi,
+  (forall c no ni, In (c, no, ni) l -> k_cancel c = None) ->
+  spec_C14_session (model_session true po pi l) = true.
+Proof. exact model_session_meets_spec. Qed.
+Print Assumptions c14_session_labels_stable_partial.
+(* partial for the same reason as c14_model_meets_spec_partial (the cancellation clause of spec_C14); the stability
+   clause itself holds for every session: *)
+Theorem c14_labels_stable : forall o n, labels_stable o (later_reads o n) = true.
+Proof. exact labels_stable_later_reads. Qed.
+Print Assumptions c14_labels_stable.
+
+Theorem c14_session_outcomes : forall fx l po pi,
+  map (fun s => (so_out s, so_in s)) (model_session fx po pi l)
+  = session fx po pi (map (fun x => (fst (fst x), false)) l).
+Proof. exact model_session_outcomes. Qed.
+Print Assumptions c14_session_outcomes.
+
+(* server B (verifying) is connected by account 0 as PAAA, then by account 2 as PCCC, then a forger presents account 0's
+   identity with a junk signature (rejected).  The first connection stays attributed to account 0; an observation in
+   which it reads as account 2 after the second handshake is rejected by the predicate. *)
+Definition exC (ver : N) (acc : list N) : side_cfg :=
+  mkSide [80; 67; 67; 67] [80; 66; 66; 66] ver acc true (mkCv 4 false) 2.
+Definition exBfor (remote : list N) : side_cfg := mkSide [80; 66; 66; 66] remote 5 [5] true (mkCv 3 false) 1.
+Definition exForged : act :=
+  AReplace [mkItem T_Cred 10 10 (BCred (mkCred CT_SignedPeerIds (PSigned (Some 0) SigJunk) (Some 5) (Some (mkCv 2 false))))] false.
+Definition exSession : list (hs_case * nat * nat) :=
+  [ (exCase (exA 5 [5] true) (exBfor [80; 65; 65; 65]), 2%nat, 2%nat);
+    (exCase (exC 5 [5]) (exBfor [80; 67; 67; 67]), 1%nat, 1%nat);
+    (mkCase (exC 5 [5]) (exBfor [80; 67; 67; 67]) exForged APass APass APass None false pooled_zero pooled_zero, 0%nat, 0%nat) ].
+Example c14_session_nonvacuous :
+  let ms := model_session true pooled_zero pooled_zero exSession in
+  map so_in ms = [Ok (mkRes (Some 0) 5 (mkCv 2 false)); Ok (mkRes (Some 2) 5 (mkCv 4 false)); Err (EProto 2)] /\
+  map so_later_in ms = [[mkRes (Some 0) 5 (mkCv 2 false); mkRes (Some 0) 5 (mkCv 2 false)]; [mkRes (Some 2) 5 (mkCv 4 false)]; []] /\
+  spec_C14_session ms = true /\
+  (* the first connection re-attributed to account 2 after the second handshake: rejected *)
+  spec_C14_session
+    (match ms with
+     | s1 :: rest => mkSessObs (so_case s1) (so_out s1) (so_in s1) (so_later_out s1)
+                               [mkRes (Some 2) 5 (mkCv 2 false); mkRes (Some 2) 5 (mkCv 2 false)] :: rest
+     | [] => [] end) = false.
+Proof. vm_compute. repeat split; reflexivity. Qed.
+
 (* ---- cancellation (evaluated, not proved in general -- see c14_model_meets_spec_partial) *)
 Definition exCancel (side : bool) (k : N) (wfail : bool) : hs_case :=
   mkCase (exA 5 [5] true) (exB 5 [5] true) APass APass APass APass (Some (side, k)) wfail pooled_zero pooled_zero.
